@@ -26,6 +26,7 @@ Vocabulary (Proofs/FundGroup*.lean, namespace `DSymVerif.FGP`):
 import Mathlib.GroupTheory.PresentedGroup
 import DSymVerif.Proofs.FundGroupRel
 import DSymVerif.Proofs.FundGroupPair
+import DSymVerif.Proofs.FundGroupPres
 import DSymVerif.Spec.C09
 
 namespace DSymVerif.C09
@@ -216,7 +217,31 @@ theorem generator_facet_pairs (ds : DSymData) (hs : ValidSym ds) (f : FundGroup)
 
 example : ValidSym (DSymData.ofSimple ex2) := ex2_validSym
 
-/-! ## 8. the open obligation (◐): Tietze equivalence with the textbook presentation -/
+/-! ## 8. the returned group is a quotient of the textbook group (part (a) of the isomorphism) -/
+
+/-- `TGroup ds` (Proofs/FundGroupPres.lean) is the textbook presentation: one generator `x(d,i)` per
+    chamber facet (`xg`), relators `x(d,i)·x(s_i d,i)` (pairing; `x²` for mirrors), `x(d,i)` for the
+    facets of `spanning_tree(ds)`, and for every chamber `d` and `i < j` the closed walk around
+    the `(i,j)`-orbit of `d` (`OW`, of length `2·r_ij(d)`) to the power `v_ij(d)`.
+    `MGroup f` is the returned presentation ⟨1..n | relators⟩.
+
+    The substitution `x(d,i) ↦ edge_to_word(d,i)` kills every textbook relator in the returned
+    group, so it induces a homomorphism `TGroup ds →* MGroup f`; this homomorphism is onto (every
+    returned generator is the image of its facet generator or of its inverse, §7). -/
+theorem textbook_onto_returned (ds : DSymData) (hs : ValidSym ds) (f : FundGroup)
+    (h : fundamentalGroup ds = .ok f) :
+    ∃ φ : TGroup ds →* MGroup f,
+      (∀ c a, 1 ≤ c → c ≤ ds.size → a ≤ ds.dim →
+        φ (PresentedGroup.mk _ (xg ds c a)) = PresentedGroup.mk _ (den (e2wGet f.edgeToWord (c, a)))) ∧
+      Function.Surjective φ := by
+  refine ⟨phi hs h, ?_, phi_surjective hs h⟩
+  intro c a h1 h2 h3
+  rw [phi_xg, valM_of_facet ⟨h1, h2, h3⟩]
+  rfl
+
+example : ValidSym (DSymData.ofSimple ex2) := ex2_validSym
+
+/-! ## 9. the open obligation (◐): Tietze equivalence with the textbook presentation -/
 
 /-- the group with generators `1..n` and the relator words `rels`
     (a quotient of `FreeGroup ℕ`: letters `0` and `> n` are killed) -/
